@@ -262,7 +262,7 @@ func ruleC03(c *Ctx, r *Report) {
 	}
 
 	// ---- R4 serialiser
-	c03Serialiser(c, r, p)
+	c03Serialiser(c, r, p, "C03-R4")
 
 	// ---- R5 one line per record (payload is the serialiser's result)
 	an := c.anchors()
@@ -290,13 +290,13 @@ func filterAtoms(as []Atom, isSubject func(ssa.Value) bool) []Atom {
 	return out
 }
 
-func c03Serialiser(c *Ctx, r *Report, p *Prov) {
+func c03Serialiser(c *Ctx, r *Report, p *Prov, rule string) {
 	ser := c.Fn("MarshalOrdered")
 	if ser == nil {
-		r.Undecided("C03-R4", "MarshalOrdered", "-", "serialiser not found")
+		r.Undecided(rule, "MarshalOrdered", "-", "serialiser not found")
 		return
 	}
-	r.Floor("C03-R4", 4, "json.Marshal sites, buffer writes, bracket pairing, method-set fact")
+	r.Floor(rule, 4, "json.Marshal sites, buffer writes, bracket pairing, method-set fact")
 	// the ordered map has no MarshalJSON: encoding/json cannot serialise it meaningfully
 	hasMJ := false
 	if len(ser.Params) > 0 {
@@ -307,7 +307,7 @@ func c03Serialiser(c *Ctx, r *Report, p *Prov) {
 			}
 		}
 	}
-	r.Check(!hasMJ, "C03-R4", "orderedmap:no-MarshalJSON", "-", "ordered map has no MarshalJSON: it must never be handed to encoding/json (premise of the rule below)", "ordered map gained a MarshalJSON method: rule premise changed, review needed")
+	r.Check(!hasMJ, rule, "orderedmap:no-MarshalJSON", "-", "ordered map has no MarshalJSON: it must never be handed to encoding/json (premise of the rule below)", "ordered map gained a MarshalJSON method: rule premise changed, review needed")
 	fns := c.pkgReach(ser)
 	var list []*ssa.Function
 	for f := range fns {
@@ -329,7 +329,7 @@ func c03Serialiser(c *Ctx, r *Report, p *Prov) {
 				inner := peel(arg)
 				construct := fmt.Sprintf("%s:json.Marshal(%s)", f.Name(), typeName(inner.Type()))
 				if cl := classOfType(inner.Type()); cl == "string" || cl == "number" || cl == "bool" {
-					r.OK("C03-R4", construct, c.InstrPos(i), "statically a scalar")
+					r.OK(rule, construct, c.InstrPos(i), "statically a scalar")
 					return
 				}
 				root := rootOf(arg)
@@ -344,13 +344,13 @@ func c03Serialiser(c *Ctx, r *Report, p *Prov) {
 						}
 					}
 				}
-				r.Check(negMap && negArr, "C03-R4", construct, c.InstrPos(i), "value is provably neither an ordered map nor an array",
+				r.Check(negMap && negArr, rule, construct, c.InstrPos(i), "value is provably neither an ordered map nor an array",
 					fmt.Sprintf("a value that may be %s is handed to encoding/json: nested documents are emitted as {} and nil arrays as null", map[bool]string{true: "an array (possibly holding documents)", false: "an ordered map"}[negMap]))
 			case "(*bytes.Buffer).WriteByte":
 				n, isC := constInt(call.Call.Args[1])
 				construct := fmt.Sprintf("%s:WriteByte(%q)", f.Name(), rune(n))
 				if !isC || !structural[n] {
-					r.Bad("C03-R4", construct, c.InstrPos(i), "a byte that is not one of { } [ ] , : is written to the output buffer")
+					r.Bad(rule, construct, c.InstrPos(i), "a byte that is not one of { } [ ] , : is written to the output buffer")
 					return
 				}
 				if cl, isOpen := closeOf[n]; isOpen {
@@ -377,9 +377,9 @@ func c03Serialiser(c *Ctx, r *Report, p *Prov) {
 						},
 					}
 					ends := q.run(call.Block(), instrIndex(call)+1, false)
-					r.Check(len(ends) == 0, "C03-R4", construct+":closed", c.InstrPos(i), fmt.Sprintf("every success path writes the matching %q", rune(cl)), fmt.Sprintf("a success return is reachable without the closing %q", rune(cl)))
+					r.Check(len(ends) == 0, rule, construct+":closed", c.InstrPos(i), fmt.Sprintf("every success path writes the matching %q", rune(cl)), fmt.Sprintf("a success return is reachable without the closing %q", rune(cl)))
 				} else {
-					r.Trivial("C03-R4", construct, c.InstrPos(i), "structural constant")
+					r.Trivial(rule, construct, c.InstrPos(i), "structural constant")
 				}
 			case "(*bytes.Buffer).Write", "(*bytes.Buffer).WriteString":
 				src := call.Call.Args[1]
@@ -392,7 +392,7 @@ func c03Serialiser(c *Ctx, r *Report, p *Prov) {
 						}
 					}
 				}
-				r.Check(okSrc, "C03-R4", fmt.Sprintf("%s:Write", f.Name()), c.InstrPos(i), "writes bytes produced by json.Marshal or by the serialiser itself", "bytes from another source are written to the output buffer")
+				r.Check(okSrc, rule, fmt.Sprintf("%s:Write", f.Name()), c.InstrPos(i), "writes bytes produced by json.Marshal or by the serialiser itself", "bytes from another source are written to the output buffer")
 			}
 		})
 	}
